@@ -10,6 +10,7 @@ import (
 	"go/ast"
 	"go/printer"
 	"go/token"
+	"os"
 	"path/filepath"
 	"sort"
 	"strconv"
@@ -369,38 +370,126 @@ func genC10Consts() {
 // filter, as "<func>:<method>". The check compares both with expectations, so
 // a dropped reserved prefix or a bypassing call site fails the tie.
 func c10Wiring() {
-	fset, f := parseFile("syncer/output.go")
+	// every non-test file of package syncer (output.go, bisync.go, bisync_rdb.go, …)
+	ents, err := os.ReadDir(filepath.Join(*repo, "syncer"))
+	if err != nil {
+		die("read syncer: %v", err)
+	}
 	var wiring []string
 	var uses []string
-	for _, d := range f.Decls {
-		fd, ok := d.(*ast.FuncDecl)
-		if !ok || fd.Body == nil {
+	for _, ent := range ents {
+		name := ent.Name()
+		if ent.IsDir() || !strings.HasSuffix(name, ".go") || strings.HasSuffix(name, "_test.go") {
 			continue
 		}
-		ast.Inspect(fd.Body, func(n ast.Node) bool {
-			ce, ok := n.(*ast.CallExpr)
-			if !ok {
+		fset, f := parseFile(filepath.Join("syncer", name))
+		for _, d := range f.Decls {
+			fd, ok := d.(*ast.FuncDecl)
+			if !ok || fd.Body == nil {
+				continue
+			}
+			var stack []ast.Node
+			ast.Inspect(fd.Body, func(n ast.Node) bool {
+				if n == nil {
+					stack = stack[:len(stack)-1]
+					return true
+				}
+				stack = append(stack, n)
+				ce, ok := n.(*ast.CallExpr)
+				if !ok {
+					return true
+				}
+				sel, ok := ce.Fun.(*ast.SelectorExpr)
+				if !ok {
+					return true
+				}
+				inner, ok := sel.X.(*ast.SelectorExpr)
+				if !ok || inner.Sel.Name != "outFilter" {
+					return true
+				}
+				// context: the condition of the innermost `if` whose condition contains the
+				// call, else the innermost assignment; plus the conditions of the enclosing
+				// `if` bodies (guards)
+				ctx := ""
+				var guards []string
+				for i := len(stack) - 2; i >= 0; i-- {
+					switch x := stack[i].(type) {
+					case *ast.IfStmt:
+						if x.Cond.Pos() <= ce.Pos() && ce.End() <= x.Cond.End() {
+							if ctx == "" {
+								ctx = "if " + c10Render(fset, x.Cond)
+							}
+						} else if x.Body.Pos() <= ce.Pos() && ce.End() <= x.Body.End() {
+							guards = append(guards, c10Render(fset, x.Cond))
+						} else if x.Else != nil && x.Else.Pos() <= ce.Pos() && ce.End() <= x.Else.End() {
+							guards = append(guards, "!("+c10Render(fset, x.Cond)+")")
+						}
+					case *ast.AssignStmt:
+						if ctx == "" {
+							ctx = c10Render(fset, x)
+						}
+					}
+				}
+				if ctx == "" {
+					ctx = c10Render(fset, ce)
+				}
+				if fd.Name.Name == "NewRedisOutput" {
+					w := c10Render(fset, ce)
+					if len(guards) > 0 {
+						w += " [if " + strings.Join(guards, " && ") + "]"
+					}
+					wiring = append(wiring, w)
+				} else {
+					u := name + ":" + fd.Name.Name + ": " + ctx
+					if len(guards) > 0 {
+						u += " [in " + strings.Join(guards, " ; ") + "]"
+					}
+					uses = append(uses, u)
+				}
 				return true
-			}
-			sel, ok := ce.Fun.(*ast.SelectorExpr)
-			if !ok {
-				return true
-			}
-			inner, ok := sel.X.(*ast.SelectorExpr)
-			if !ok || inner.Sel.Name != "outFilter" {
-				return true
-			}
-			if fd.Name.Name == "NewRedisOutput" {
-				wiring = append(wiring, c10Render(fset, ce))
-			} else {
-				uses = append(uses, fd.Name.Name+":"+sel.Sel.Name)
-			}
-			return true
-		})
+			})
+		}
 	}
 	sort.Strings(uses)
 	facts["output_filter_wiring"] = wiring
 	facts["output_filter_uses"] = uses
+
+	// where the configured filter is handed to NewRedisOutput, and what config.fix does to it
+	var handoff []string
+	for _, rel := range []string{"syncer/syncer.go", "cmd/rdb.go"} {
+		fset, f := parseFile(rel)
+		ast.Inspect(f, func(n ast.Node) bool {
+			kv, ok := n.(*ast.KeyValueExpr)
+			if !ok {
+				return true
+			}
+			if id, ok := kv.Key.(*ast.Ident); ok && id.Name == "Filter" {
+				handoff = append(handoff, rel+": "+c10Render(fset, kv))
+			}
+			return true
+		})
+	}
+	facts["output_filter_handoff"] = handoff
+	var cfgWrites []string
+	{
+		fset, f := parseFile("config/config.go")
+		ast.Inspect(f, func(n ast.Node) bool {
+			as, ok := n.(*ast.AssignStmt)
+			if !ok {
+				return true
+			}
+			for _, l := range as.Lhs {
+				if strings.Contains(c10Render(fset, l), "Filter") {
+					cfgWrites = append(cfgWrites, c10Render(fset, as))
+				}
+			}
+			return true
+		})
+	}
+	if cfgWrites == nil {
+		cfgWrites = []string{}
+	}
+	facts["config_filter_writes"] = cfgWrites
 }
 
 func genC10() {
